@@ -127,7 +127,11 @@ def check_curve(ctx, params, grid, mean, kappa, et, inp):
         # specific yield of 201 knots, and raised an alarm on the unchanged tree in a thorough run)
         kn = sorted({float(k) for k in knots_of(sy, params) if grid[i] < float(k) < grid[j]})
         direct = si.quad(f, grid[i], grid[j], limit=max(200, 4 * len(kn) + 50), points=kn or None)[0]
-        if abs((t[j] - t[i]) - direct) > 1e-6 * max(1e-9, abs(direct)) + 1e-12:
+        # 2e-5 relative: the tool integrates each grid cell with one adaptive QUADPACK call and no break points; over a wide
+        # cell of a piecewise-linear specific yield (PEATCLSM: a kink every 10 mm) its result is good to a few 1e-6
+        # (worst seen on the unchanged tree in thorough runs: 5e-6), which is the accuracy of the method, not a defect of
+        # the logic; every seeded change of the recession curve so far is off by 1e-4 or more
+        if abs((t[j] - t[i]) - direct) > 2e-5 * max(1e-9, abs(direct)) + 1e-12:
             wit = {"why": "elapsed-time difference is not the integral of Sy / (-ET - curvature * T)",
                    "levels": [grid[i], grid[j]], "difference": t[j] - t[i], "integral": direct}
     if wit is None and abs(float(np.mean(t)) - mean) > 1e-9 * max(1.0, abs(mean), max(abs(v) for v in t)):
@@ -194,7 +198,7 @@ def run(ctx):
             # with log K differences cancels catastrophically there); the grid reaches above that layer
             kk = params["transmissivity"]["K_knots_km_d"]
             q_ = 0          # the lowest layer: every level above its upper knot inherits the error
-            kk[q_ + 1] = float(kk[q_]) * (1.0 + rng.choice([3e-13, 1e-12, -2e-12]))
+            kk[q_ + 1] = float(kk[q_]) * (1.0 + rng.choice([3e-14, 1e-13, -5e-14]))
             ctx.count("parameter_sets_with_nearly_equal_neighbouring_conductivities")
         if k % 3 == 1 and params["transmissivity"]["type"] == "spline":
             # the grid reaches the lowest conductivity knot and below it (where transmissivity IS the stated minimum), the
